@@ -38,7 +38,8 @@ def alphabets():
     mt = [F(0), F(1), F(1, 2), F(1, 3), F(2), F(3, 4), F(5, 2)] + ([F(1, 1000), F(100), F(9, 10)] if ex else [])
     A["MaxTimes"] = (MaxTimes, [MaxTimes.zero, MaxTimes.one] + [MaxTimes(x) for x in mt], "exact")
     A["MaxTimes-float"] = (MaxTimes, [MaxTimes.zero, MaxTimes.one] + [MaxTimes(float(x)) for x in mt], "float")
-    lg = [math.log(0.5), math.log(0.25), math.log(2.0), -3.2, 0.0, -INF, 1.5] + ([-30.0, math.log(0.999), 4.0] if ex else [])
+    # incl. pairs whose gap exceeds the range of exp() (709.78): log-sum-exp must pivot on the larger one
+    lg = [math.log(0.5), math.log(0.25), math.log(2.0), -3.2, 0.0, -INF, 1.5, -800.0, 760.0] + ([-30.0, math.log(0.999), 4.0, -1e5] if ex else [])
     A["Log"] = (Log, [Log.zero, Log.one] + [Log(x) for x in lg], "float")
     pairs = [(F(0), F(0)), (F(1), F(0)), (F(1, 2), F(-1, 2)), (F(1, 4), F(1, 3)), (F(2), F(1)), (F(3, 4), F(0)), (F(1, 3), F(-2))] + ([(F(9, 10), F(1, 10)), (F(0), F(1)), (F(5), F(-3))] if ex else [])
     A["Entropy"] = (Entropy, [Entropy.zero, Entropy.one] + [Entropy(p, r) for p, r in pairs], "exact")
